@@ -46,7 +46,7 @@ def main():
     dest_n = sys.argv[sys.argv.index("--dest") + 1] if "--dest" in sys.argv else n
     src = os.path.join(wt, "SEEDED", n)
     patch = os.path.join(src, "patch.diff")
-    meta = {"property": pid, "source": "independent sub-agent given only the property text and a scratch worktree", "n": dest_n, "round": (2 if dest_n != n else 1),
+    meta = {"property": pid, "source": "independent sub-agent given only the property text and a scratch worktree", "n": dest_n, "round": (int(dest_n) - 1) // 3 + 1,
             "validated_at": time.strftime("%Y-%m-%dT%H:%M:%SZ", time.gmtime())}
     sh("git checkout -- .", cwd=wt)
     rc0, out0 = sh("bash SEEDED/%s/demo.sh" % n, cwd=wt, timeout=1800)
